@@ -596,6 +596,9 @@ class Atoms:
 
         atom_type_masses = np.array(masses, dtype=float)
         atoms = np.array(atoms, dtype=float)
+        if len(atoms) == 0:
+            # a file without atoms: keep the table two-dimensional so that the column slices below are empty
+            atoms = atoms.reshape(0, 7)
         bonds = np.array(bonds, dtype=int)
         angles = np.array(angles, dtype=int)
         dihedrals = np.array(dihedrals, dtype=int)
